@@ -954,8 +954,9 @@ open PtaSpec
           the '\n'-join of the lines `aggLines`, which are, rule by rule, the rendered report items (C03) of the failing
           rules, as a set the renderings of `applyAll`'s items, and literally `splitLines text` when no line contains a
           newline; conjunct 14 (`Pta.C07.diagram_text_is_aggregation`): `DiagramRule.assert_applies` with text: no file
-          — ImproperlyConfigured, a file that does not parse — the parser's error, otherwise this aggregation over the
-          generated rules (base module prefixed); same class as `diagramAssert`.
+          — ImproperlyConfigured, a file that does not parse — the parser's error, a component (base module prefixed)
+          that is not a module of the architecture — a lookup error (repair of F-C13c, see C13), otherwise this
+          aggregation over the generated rules (base module prefixed); same class as `diagramAssert`.
       (4) "with_base_module(p) behaves exactly like writing every component as p.name" — conjunct 5
           (`Pta.C07.base_module`): the rules generated after `with_base_module(q)` are the rules generated without it with
           every name `m` replaced by `q.m`, for EVERY parse result; conjunct 6 (`Pta.C07.base_module_diagram`): … which is
@@ -1063,7 +1064,9 @@ def C07_Statement : Prop :=
   (∀ (mt : Str → Str → Bool) (g : PGraph Str) (base : Option Str) (so : Bool),
     diagramAssertText mt none base so g = .err .improperlyConfigured ∧
     (∀ c k, pumlParse c = .error k → diagramAssertText mt (some c) base so g = .err k) ∧
-    (∀ c p, pumlParse c = .ok p →
+    (∀ c p, pumlParse c = .ok p → diagramMissing (prefixParsed p base) g = true →
+      diagramAssertText mt (some c) base so g = .err .lookupError) ∧
+    (∀ c p, pumlParse c = .ok p → diagramMissing (prefixParsed p base) g = false →
       diagramAssertText mt (some c) base so g = applyAllText mt g (diagramRules so (prefixParsed p base))) ∧
     (∀ content, (diagramAssertText mt content base so g).cls = (diagramAssert mt content base so g).cls))
 
@@ -2003,13 +2006,22 @@ open PtaSpec Pta.C13M
           generated rule batch raise the lookup error, both modes, any base module, for every parse result without a
           dependor with an empty dependee list (`hne`; every parser output is one, `Pta.C13.parse_result_shape`);
           conjunct 26 (`Pta.C13.diagram_lookup_error_iff`): EXACTLY then, and the batch never raises anything else;
-          conjunct 28 (`Pta.C13.diagram_file_lookup_error_iff`): the same of `DiagramRule.assert_applies` on every file
-          that parses (no `hne`; sufficient form `Pta.C13.diagram_file_unknown_component`; for every builder history
-          supplying that file last: `Pta.C13.diagram_history_unknown_component`).  The BOUNDARY — conjunct 27
-          (`Pta.C13.diagram_single_component`): a diagram with ONE isolated component generates no rule at all, nothing
-          is looked up and the check passes on every graph whether the component exists or not: for that diagram the
-          English clause does not hold of the library (and "exactly the checked components" of conjunct 26 is the
-          true statement).
+          conjunct 27 (`Pta.C13.diagram_single_component`): the BOUNDARY of the batch — a diagram with ONE isolated
+          component generates no rule at all, the batch looks nothing up and passes on every graph whether the component
+          exists or not ("exactly the checked components" of conjunct 26 is the true statement about the BATCH).  Before
+          the repair of finding F-C13c this was the outcome of `DiagramRule.assert_applies`
+          (`Pta.C13.diagram_single_component_before_repair`, on the model `diagramAssertBeforeRepair`; exact statement
+          `Pta.C13.diagram_file_lookup_error_iff_before_repair`), so the English clause did not hold of the library for
+          that diagram.  The repaired `assert_applies` (`diagramAssert`) checks, after prefixing and before the rules are
+          generated, that EVERY component is a module of the architecture, else a lookup error (`KeyError`) —
+          conjunct 28 (`Pta.C13.diagram_file_lookup_error_iff`): on every file that parses, `DiagramRule.assert_applies`
+          raises the lookup error EXACTLY when some component (base module prefixed) is not a node of the graph — no
+          `Checked`, no "at least two components", no `hne` — and it raises no other error (sufficient form
+          `Pta.C13.diagram_file_unknown_component`; for every builder history supplying that file last:
+          `Pta.C13.diagram_history_unknown_component`; the one isolated absent component now raises:
+          `Pta.C13.diagram_single_component_repaired`).  In the domain of C07 / C09 / C14 / C15 / E2E (all components
+          are nodes) the new check finds nothing (`Pta.C07.domain_nothing_missing`,
+          `Pta.Repair.diagramAssert_eq_beforeRepair`).
           TOO-DEEP NAMES against level-limited architectures — conjunct 29 (`Pta.C13.too_deep_not_node`): on the graph
           built with `level_limit = k` no well-formed name with more than `k+1` components is a node; conjunct 30
           (`Pta.C13.too_deep_name`): hence a complete regex-free module rule naming (`are_named` or
@@ -2249,7 +2261,7 @@ def C13_Statement : Prop :=
   -- 28 `Pta.C13.diagram_file_lookup_error_iff`
   (∀ (mt : Str → Str → Bool) (g : PGraph Str) (so : Bool) (c : Str) (base : Option Str)
     (p : Parsed'), pumlParse c = .ok p →
-    (diagramAssert mt (some c) base so g = .err .lookupError ↔ ∃ m, Checked p m ∧ g.hasNode (withBase base m) = false) ∧
+    (diagramAssert mt (some c) base so g = .err .lookupError ↔ ∃ m ∈ p.modules, g.hasNode (withBase base m) = false) ∧
     (∀ k, diagramAssert mt (some c) base so g = .err k → k = .lookupError)) ∧
   -- 29 `Pta.C13.too_deep_not_node`
   (∀ (a : Arch), a.wf = true → ∀ (k : Nat) (n : Name), nameWF n = true →
